@@ -48,7 +48,7 @@ func (C13) Meta() core.Meta {
 		Assumptions: []string{
 			"the destination honours io.Writer (never n<len with nil error); the source never returns (0,nil)",
 			"reference model (sim/ref, validated on the 114 CCTV vectors) decides 'complete valid file for P'",
-			"once-then-recovering sources are checked with a narrowly relaxed oracle: a clean end with exactly P is tolerated only for binary input when the error arrived together with the bytes that completed the header (format.Parse discards its private bufio and that error with it; the statement's quantifier names once-failures for the destination only); any other swallowed source failure is a violation",
+			"once-then-recovering sources are checked with a narrowly relaxed oracle: a clean end with exactly P is tolerated only for binary input when the error arrived together with the bytes that completed the header (format.Parse discards its private bufio and that error with it), the 16-byte nonce or a full-size chunk (io.ReadFull drops an error that comes with the bytes filling its buffer); the statement's quantifier names once-failures for the destination only. Any other swallowed source failure is a violation",
 		},
 		Real:       []string{"filippo.io/age Encrypt/Decrypt", "internal/stream", "internal/format", "armor", "x/crypto"},
 		Stub:       []string{"destination writer (SimDisk)", "ciphertext source (SimSource)", "crypto/rand.Reader (tape)"},
@@ -571,8 +571,18 @@ func (e C13) execSrc(p *C13Plan, c *core.Ctx) *core.Verdict {
 				// (format.Parse then drops its private bufio and the error with it; nothing is read wrongly).
 				// A source error that arrived BEFORE the header was complete, or anywhere in armored input,
 				// cannot be dropped without the parser asking the failed source again.
-				if raw || p.File.Armor || f.At+src.FiredK < hdrLen {
-					return fail("C13.src.once_swallowed", "the source failed once at offset %d (delivering %d bytes with the error; header ends at %d, armored=%v) and went on; decryption reported a clean end of stream and never mentioned the failure, although it had to read from the failed source again to get there", f.At, src.FiredK, hdrLen, raw || p.File.Armor)
+				// ... or with the bytes that exactly completed the nonce or a full-size chunk (io.ReadFull drops an
+				// error that comes with the bytes filling its buffer). A short final chunk never fills the buffer.
+				end := f.At + src.FiredK
+				explained := !raw && !p.File.Armor && f.At < hdrLen && end >= hdrLen
+				if !raw && !p.File.Armor && end == hdrLen+16 && src.FiredK > 0 {
+					explained = true
+				}
+				if !raw && !p.File.Armor && end > hdrLen+16 && (end-hdrLen-16)%65552 == 0 && src.FiredK > 0 {
+					explained = true
+				}
+				if !explained {
+					return fail("C13.src.once_swallowed", "the source failed once at offset %d (delivering %d bytes with the error; header ends at %d, armored=%v) and went on; decryption reported a clean end of stream and never mentioned the failure, although the bytes that came with the error completed neither the header nor the nonce nor a full-size chunk, so the failed source had to be read again", f.At, src.FiredK, hdrLen, raw || p.File.Armor)
 				}
 				c.Stats.Inc(fmt.Sprintf("swallow.k_%d_bufio_%d_deliv_%s", min(f.K, 2), p.Delivery.Bufio, p.Delivery.Mode))
 			} else if res.DecryptErr == nil && !res.Sticky {
